@@ -174,7 +174,10 @@ def nest_strategy():
                 c = draw(st.integers(0, 9))
                 if c <= 2:
                     nm = draw(st.sampled_from(POOL))
-                    out.append(ind + '%s = 1' % nm)
+                    # every kind of binder, so that global / nonlocal declarations meet def, class and import too
+                    form = draw(st.sampled_from(['%s = 1', '%s = 1', '%s = 1', 'def %s(): return 0', 'class %s: pass', 'import os as %s',
+                                                 'from os import path as %s', '%s: int = 2']))
+                    out.append(ind + form % nm)
                     bound_here.add(nm)
                 elif c == 3:
                     out += reads(ind)
